@@ -1,12 +1,16 @@
 """C14 — run_timeout stops only in a sound, resumable state."""
 from . import core, eng, gen, engcheck
 
-THEOREMS = ["timeout_true_complete", "timeout_false_sound", "interrupted_between", "resume_complete", "lattice_timeout_sound", "lattice_resume_complete", "timeout_false_sound_agg", "timeout_false_sound_agg_from", "resume_complete_agg"]
+THEOREMS = ["timeout_true_complete", "timeout_false_sound", "interrupted_between", "resume_complete", "lattice_timeout_sound", "lattice_resume_complete", "timeout_false_sound_agg", "timeout_false_sound_agg_from", "resume_complete_agg",
+            "timeout_sound_phys", "timeout_true_complete_phys", "resume_complete_phys"]
 TRUSTED = ["Lean 4.33.0 kernel", "axioms: propext, Classical.choice, Quot.sound only (audited per theorem)",
            "statement: Props/C14.lean (arbitrary deadline oracle over the clock readings; any number of interruptions)",
            "model Model/Engine.lean (check points after each changing iteration of a looping SCC and at the end of a non-looping SCC; early return "
            "drops the SCC's local indices) tied by compiled programs with #![generate_run_timeout] under the virtual clock hook "
            "(ascent::internal::verif::arm_deadline): the k-th clock reading fires, for EVERY k up to the number of readings of the uninterrupted run",
+           "Props/C13Phys.lean: run_timeout over the PHYSICAL indices (Model/EnginePhysTimeout.lean: an early return drops the local indices of the current SCC, the struct keeps "
+           "empty ones, rows stay): timeout_sound_phys (any deadline oracle: typed, rows derivable, old rows a prefix), timeout_true_complete_phys, resume_complete_phys (ANY number of "
+           "interruptions, then a completing run = least model of the original rows); tied by running the odd inputs' crash points through that model (`eng runtop`, `eng runp`)",
            "the wall clock itself is replaced by the hook (real Instant only in the un-armed run() path); stratified programs with aggregation / negation: Props/C13Agg.lean (timeout_false_sound_agg, resume_complete_agg, relative to an uninterrupted reference run)"]
 MAXK = 14
 
@@ -122,7 +126,7 @@ def canon(c, out):
 
 
 def check(tier, replay=None):
-    return engcheck.run_property("C14", tier, modules=["AscentVerif.Props.C14", "AscentVerif.Props.C13L", "AscentVerif.Props.C13Agg"], theorems=THEOREMS, trusted=TRUSTED, group="c14",
+    return engcheck.run_property("C14", tier, modules=["AscentVerif.Props.C14", "AscentVerif.Props.C13L", "AscentVerif.Props.C13Agg", "AscentVerif.Props.C13Phys"], theorems=THEOREMS, trusted=TRUSTED, group="c14",
                                  build=build, oracle=oracle, canon=canon, what="run_timeout histories on compiled programs under the virtual clock",
                                  rule="generated programs compiled with #![generate_run_timeout] x inputs x EVERY crash point k = 0..13 (k-th clock reading fires; "
                                       "beyond the last reading the call completes) followed by run(), plus repeated interruptions k1 k2 .. then completion; after "
